@@ -576,7 +576,7 @@ func indexLed(p *parser, t *token, left *token) *token {
 
 func negateNud(p *parser, t *token) *token {
 	expr := p.doExpression(130) // higher BP for negation
-	if expr.Symbol == "(int)" || expr.Symbol == "(float64)" {
+	if (expr.Symbol == "(int)" || expr.Symbol == "(float64)") && !strings.HasPrefix(expr.Text, "-") {
 		expr.Text = "-" + expr.Text
 		return expr
 	}
